@@ -39,6 +39,7 @@ type stats struct {
 	SelectSimple      int            `json:"select_single"`
 	UncontrolledSel   int            `json:"uncontrolled_select"`
 	RMW               int            `json:"read_modify_write_splits"`
+	HBUnhandled       []string       `json:"hb_unhandled_sync"` // synchronisation calls the happens-before tracking has no model for (race verdicts off if any)
 	MapChecks         int            `json:"map_access_checks"`
 	MapChecksSkipped  int            `json:"map_accesses_not_checked"`
 	MapRange          int            `json:"map_range_sorted"`
@@ -141,10 +142,7 @@ func main() {
 		must(err)
 		ov[dst] = b
 	}
-	if len(mapPkgs) > 0 {
-		ov[filepath.Join(*repo, "verifsim/simrt/zz_race_build.go")] = []byte("package simrt\n\nfunc init() { RaceBuild = true }\n")
-		rawGenerated[filepath.Join(*repo, "verifsim/simrt/zz_race_build.go")] = "package simrt\n\nfunc init() { RaceBuild = true }\n"
-	}
+	wantRace := len(mapPkgs) > 0
 	// placeholder reinit files so that shims/harness can reference VerifSimReinit
 	for _, p := range pkgs {
 		name := filepath.Base(p)
@@ -200,7 +198,7 @@ func main() {
 		isExt[e] = true
 	}
 	for _, p := range loaded {
-		rw := &rewriter{pkg: p, fset: p.Fset, repo: *repo, fs: fsPkgs[p.PkgPath], maps: mapPkgs[p.PkgPath], hb: len(mapPkgs) > 0, rmw: !isExt[p.PkgPath] && !strings.Contains(p.PkgPath, "/verifsim/")}
+		rw := &rewriter{pkg: p, fset: p.Fset, repo: *repo, fs: fsPkgs[p.PkgPath], maps: mapPkgs[p.PkgPath], hb: len(mapPkgs) > 0, rmw: !isExt[p.PkgPath] && !strings.Contains(p.PkgPath, "/verifsim/"), isExtPkg: isExt[p.PkgPath] || strings.Contains(p.PkgPath, "/verifsim/")}
 		isHarness := strings.Contains(p.PkgPath, "/verifsim/harness/")
 		var reinitCalls []string
 		for i, f := range p.Syntax {
@@ -286,6 +284,13 @@ func main() {
 			must(os.WriteFile(outPath, buf.Bytes(), 0o644))
 			overlay[filepath.Join(dir, "zz_verifsim_reinit.go")] = outPath
 		}
+	}
+	if wantRace && len(st.HBUnhandled) == 0 {
+		dst := filepath.Join(*repo, "verifsim/simrt/zz_race_build.go")
+		outPath := filepath.Join(srcOut, strings.TrimPrefix(dst, "/"))
+		must(os.MkdirAll(filepath.Dir(outPath), 0o755))
+		must(os.WriteFile(outPath, []byte("package simrt\n\nfunc init() { RaceBuild = true }\n"), 0o644))
+		overlay[dst] = outPath
 	}
 	if len(extReplace) > 0 {
 		f, err := os.OpenFile(modfile, os.O_APPEND|os.O_WRONLY, 0o644)
@@ -377,6 +382,7 @@ type rewriter struct {
 	maps   bool // report map accesses of this package to the race tracker
 	hb     bool // add the happens-before calls around channel operations
 	rmw    bool // split read-modify-write statements on shared variables (R10)
+	isExtPkg bool
 	usedRT bool
 	usedFS bool
 	tmpN   int
